@@ -104,7 +104,7 @@ fn gen_desc(rng: &mut Lcg) -> Desc {
         let word = if exclusive { EXCL[rng.next(EXCL.len())] } else { INCL[rng.next(INCL.len())] };
         let k = 1 + rng.next(2.min(pool.len()));
         let names: Vec<&'static str> = pool.drain(..k).collect();
-        decls.push(Decl { word, names, sep: [" ", "\t"][rng.next(2)], exclusive });
+        decls.push(Decl { word, names, sep: [" ", "\t", "  ", "\t ", " \t\t"][rng.next(5)], exclusive });   // (runs of blanks separate names as one blank does)
     }
     let mut d = Desc { header, decls, rules: Vec::new() };
     let nst = states_of(&d).len();
@@ -115,7 +115,7 @@ fn gen_desc(rng: &mut Lcg) -> Desc {
         // character; \\x.. / \\u.... are handed to the regex engine
         const ESCS: &[(&str, &str)] = &[("\\c", "c"), ("\\x61", "a"), ("\\xe9", "é"), ("\\u00e9", "é"), ("\\xE9", "é"), ("\\x63\\x62", "cb"),
             // x / u / U are only hex escapes when a hex digit follows: otherwise the backslash stands before a plain letter
-            ("\\xg", "xg"), ("\\u~", "u~"), ("\\Uz", "Uz"), ("c\\x", "cx"), ("\\x61\\xs", "axs")];
+            ("a\\Bb", "ab"), ("\\xg", "xg"), ("\\u~", "u~"), ("\\Uz", "Uz"), ("c\\x", "cx"), ("\\x61\\xs", "axs")];
         // a backslash before a character that is special to the regex engine is kept (also inside a class, where `\-` is a
         // literal dash and `-` would make a range)
         const CLASSES: &[(&str, &str)] = &[("[a\\-c]+", "a-c"), ("[\\-a]+", "-a"), ("[c\\#\\&]+", "c#&"), ("[a\\~\\.]+", "a~.")];
